@@ -175,7 +175,18 @@ func H_C04_graph() {
 	root := nodes[0]
 	typMap, nameMap := vExtract(root)
 	vStepLimit(400000)
-	bs, err := ToBytes(root, nameMap)
+	var bs []byte
+	var err error
+	if vChoice("api", 2) == 0 {
+		bs, err = ToBytes(root, nameMap)
+	} else {
+		// the second message of a reused serializer that has already sent the same objects
+		s := NewSerializer(typMap, nameMap)
+		_, err = s.ToBytes(nodes[k-1])
+		vAssert("first-message-noerr", err == nil)
+		vStepLimit(400000)
+		bs, err = s.ToBytes(root)
+	}
 	vAssert("encode-noerr", err == nil)
 	out, err := ToObject(bs, typMap)
 	vStepLimit(0)
